@@ -452,7 +452,7 @@ pub fn soup(rng: &mut Rng, i: u64, opts: &Opts) -> Vec<History> {
     }
     // wedge probe: the universal reset word, then a probe character
     evs.push(HEv { b: vec![0x18, 0x07, 0x07], ..hev("feedb", vec![], vec![], false, "bytes") });
-    evs.push(HEv { b: vec![0x50], ..hev("feedb", vec![], vec![], false, "bytes") });
+    evs.push(HEv { b: vec![0x50], ..hev("feedb", vec![1], vec![], false, "bytes") }); // p = [1]: the probe
     evs.push(hev("display", vec![], vec![], false, "api"));
     vec![History { id: format!("soup-{}", i), sid: String::new(), cmp: String::new(), c, l, scr: true, utf8, evs, setup: vec![], dispsetup: false }]
 }
